@@ -30,6 +30,9 @@ TranslateError and the check falls back to coq/gen_default/SyncDist_gen.v + the 
 * pynenc/task.py  distribute_calls, the dev_mode_force_sync_tasks branch (see parse_sync_group)
       for a in all_args: v = task._call(a); <type guard>; L.append(v)   return ConcurrentInvocationGroup(task, L)
   -> gen_sync_group_own_invocations (every element of a parallelized list is its own fresh invocation)
+* pynenc/task.py  distribute_batch_calls (see parse_batches)  -> gen_batch_count n b
+* pynenc/task.py  prepare_arguments (see parse_common_args)  -> gen_common_args_fresh_per_call
+* pynenc/app.py   direct_task.decorator option filter (see parse_direct_options)  -> gen_direct_option
 """
 from __future__ import annotations
 
@@ -390,8 +393,208 @@ def parse_sync_group(src: str) -> dict:
     return {"own_invocations": True, "why": "one fresh invocation appended per element of all_args"}
 
 
+def _arith(e: ast.AST, env: dict) -> str:
+    """integer expression over len(other_args) (n) and batch_size (b) -> Coq nat term (truncated subtraction,
+    floor division as in Python for non-negative operands)"""
+    if isinstance(e, ast.Constant) and isinstance(e.value, int) and not isinstance(e.value, bool) and 0 <= e.value <= 1000:
+        return str(e.value)
+    if isinstance(e, ast.Name):
+        if e.id in env:
+            return env[e.id]
+        raise TranslateError(f"batch arithmetic: unknown name {e.id}")
+    if isinstance(e, ast.Call) and _dotted(e.func) == "len" and len(e.args) == 1 and _dotted(e.args[0]) == "other_args":
+        return "n"
+    if isinstance(e, ast.Call) and _dotted(e.func) in ("max", "min") and len(e.args) == 2 and not e.keywords:
+        return f"(Nat.{_dotted(e.func)} {_arith(e.args[0], env)} {_arith(e.args[1], env)})"
+    if isinstance(e, ast.Call) and _dotted(e.func) == "math.ceil" and len(e.args) == 1 \
+            and isinstance(e.args[0], ast.BinOp) and isinstance(e.args[0].op, ast.Div):
+        x, y = _arith(e.args[0].left, env), _arith(e.args[0].right, env)
+        return f"(Nat.div ({x} + {y} - 1) {y})"
+    if isinstance(e, ast.BinOp):
+        x, y = _arith(e.left, env), _arith(e.right, env)
+        op = {ast.Add: "+", ast.Sub: "-", ast.Mult: "*"}.get(type(e.op))
+        if op:
+            return f"({x} {op} {y})"
+        if isinstance(e.op, ast.FloorDiv):
+            return f"(Nat.div {x} {y})"
+    raise TranslateError("batch arithmetic: unsupported expression " + ast.dump(e)[:80])
+
+
+def parse_batches(src: str) -> dict:
+    """pynenc/task.py  distribute_batch_calls: how many batches of `batch_size` calls are routed.
+
+          for i in range(0, len(other_args), batch_size):        -> ceil(n / b) batches, batch k starts at k*b
+              batch_args = other_args[i : i + batch_size]
+       or
+          [<count> = <arithmetic over len(other_args), batch_size>]
+          for k in range(<count>):
+              i = k * batch_size
+              batch_args = other_args[i : i + batch_size]
+
+       and every batch is routed and added: `<x> = task.app.orchestrator.route_calls(<calls of the batch>)`,
+       `invocations.extend(<x>)`; the group is built from `invocations`.
+    -> gen_batch_count n b (a Coq term).  Anything else: TranslateError."""
+    fn = _find_func(ast.parse(src).body, "distribute_batch_calls")
+    loops = [s for s in fn.body if isinstance(s, ast.For)]
+    loops = [l for l in loops if any(isinstance(n, ast.Call) and (_dotted(n.func) or "").endswith("orchestrator.route_calls")
+                                     for n in ast.walk(l))]
+    if len(loops) != 1:
+        raise TranslateError("distribute_batch_calls: no single loop routing the batches")
+    loop = loops[0]
+    if not (isinstance(loop.target, ast.Name) and isinstance(loop.iter, ast.Call) and _dotted(loop.iter.func) == "range"
+            and not loop.iter.keywords and not loop.orelse):
+        raise TranslateError("distribute_batch_calls: loop header is not `for <name> in range(...)`")
+    bs = [s for s in fn.body if isinstance(s, ast.Assign) and len(s.targets) == 1 and _dotted(s.targets[0]) == "batch_size"]
+    if len(bs) != 1 or _dotted(bs[0].value) != "task.conf.parallel_batch_size" or _names_bound(fn.body).count("batch_size") != 1:
+        raise TranslateError("distribute_batch_calls: batch_size is not task.conf.parallel_batch_size, bound once")
+    env = {"batch_size": "b"}
+    for st in fn.body[:fn.body.index(loop)]:          # simple integer names defined before the loop
+        if isinstance(st, ast.Assign) and len(st.targets) == 1 and isinstance(st.targets[0], ast.Name) \
+                and st.targets[0].id not in ("batch_size", "other_args", "invocations"):
+            try:
+                env[st.targets[0].id] = _arith(st.value, env)
+            except TranslateError:
+                pass
+    var = loop.target.id
+    body = list(loop.body)
+    rargs = loop.iter.args
+    if len(rargs) == 3:
+        if not (isinstance(rargs[0], ast.Constant) and rargs[0].value == 0 and _arith(rargs[1], env) == "n"
+                and _arith(rargs[2], env) == "b"):
+            raise TranslateError("distribute_batch_calls: range(start, stop, step) is not range(0, len(other_args), batch_size)")
+        count, start = "Nat.div (n + b - 1) b", var
+    elif len(rargs) == 1:
+        count = _arith(rargs[0], env)
+        if not (body and isinstance(body[0], ast.Assign) and len(body[0].targets) == 1 and isinstance(body[0].targets[0], ast.Name)
+                and isinstance(body[0].value, ast.BinOp) and isinstance(body[0].value.op, ast.Mult)
+                and {_dotted(body[0].value.left), _dotted(body[0].value.right)} == {var, "batch_size"}):
+            raise TranslateError("distribute_batch_calls: batch start is not <k> * batch_size")
+        start = body[0].targets[0].id
+        body = body[1:]
+    else:
+        raise TranslateError("distribute_batch_calls: range() form not recognised")
+    # batch_args = other_args[start : start + batch_size]
+    sl = [s for s in body if isinstance(s, ast.Assign) and isinstance(s.value, ast.Subscript)
+          and _dotted(s.value.value) == "other_args" and isinstance(s.value.slice, ast.Slice)]
+    if len(sl) != 1:
+        raise TranslateError("distribute_batch_calls: the batch is not one slice of other_args")
+    lo, hi, step = sl[0].value.slice.lower, sl[0].value.slice.upper, sl[0].value.slice.step
+    if not (step is None and _dotted(lo) == start and isinstance(hi, ast.BinOp) and isinstance(hi.op, ast.Add)
+            and {_dotted(hi.left), _dotted(hi.right)} == {start, "batch_size"}):
+        raise TranslateError("distribute_batch_calls: slice is not other_args[i : i + batch_size]")
+    if _names_bound(loop.body).count(start) != (0 if len(rargs) == 3 else 1):
+        raise TranslateError("distribute_batch_calls: the batch start is re-bound in the loop")
+    routed = [s for s in body if isinstance(s, ast.Assign) and isinstance(s.value, ast.Call)
+              and (_dotted(s.value.func) or "").endswith("orchestrator.route_calls") and len(s.targets) == 1
+              and isinstance(s.targets[0], ast.Name)]
+    ext = [s for s in body if isinstance(s, ast.Expr) and isinstance(s.value, ast.Call) and _dotted(s.value.func) == "invocations.extend"
+           and len(s.value.args) == 1]
+    if len(routed) != 1 or len(ext) != 1 or _dotted(ext[0].value.args[0]) != routed[0].targets[0].id:
+        raise TranslateError("distribute_batch_calls: a batch is not routed and added to `invocations` exactly once")
+    if any(isinstance(n, (ast.Break, ast.Continue, ast.Return)) for s in loop.body for n in ast.walk(s)):
+        raise TranslateError("distribute_batch_calls: the batch loop can leave early")
+    ret = fn.body[-1]
+    if not (isinstance(ret, ast.Return) and isinstance(ret.value, ast.Call) and _dotted(ret.value.func) == "DistributedInvocationGroup"
+            and len(ret.value.args) == 2 and _dotted(ret.value.args[1]) == "invocations"):
+        raise TranslateError("distribute_batch_calls: does not return DistributedInvocationGroup(task, invocations)")
+    return {"count": count}
+
+
+def parse_common_args(src: str) -> dict:
+    """pynenc/task.py  prepare_arguments, a dict element next to common_args:
+
+          for params in param_iter:
+              ...
+              elif isinstance(params, dict):
+                  if common_args:
+                      <m> = common_args.copy()        (or dict(common_args) / {**common_args})
+                      <m>.update(params)
+                      args_obj = task.args(**<m>)
+
+    -> fresh_per_call = True: each call's keyword arguments are its own parameters over a FRESH copy of common_args.
+       False (recognised deviation): the dict that is updated and passed on is not re-created from common_args
+       inside the iteration (keys of one call stay for the next ones), or common_args itself is updated."""
+    fn = _find_func(ast.parse(src).body, "prepare_arguments")
+    loops = [s for s in fn.body if isinstance(s, ast.For)]
+    if len(loops) != 1 or _dotted(loops[0].iter) != "param_iter" or not isinstance(loops[0].target, ast.Name):
+        raise TranslateError("prepare_arguments: no single `for <p> in param_iter` loop")
+    loop, par = loops[0], loops[0].target.id
+    ifs = [n for n in ast.walk(loop) if isinstance(n, ast.If) and _dotted(n.test) == "common_args"]
+    ifs = [n for n in ifs if any(isinstance(c, ast.Call) and _dotted(c.func) == "task.args" for s in n.body for c in ast.walk(s))]
+    if len(ifs) != 1:
+        raise TranslateError("prepare_arguments: no single `if common_args:` branch building the call's arguments")
+    br = ifs[0].body
+    calls = [c for s in br for c in ast.walk(s) if isinstance(c, ast.Call) and _dotted(c.func) == "task.args"]
+    if len(calls) != 1 or calls[0].args or len(calls[0].keywords) != 1 or calls[0].keywords[0].arg is not None \
+            or not isinstance(calls[0].keywords[0].value, ast.Name):
+        raise TranslateError("prepare_arguments: the merged call is not task.args(**<name>)")
+    m = calls[0].keywords[0].value.id
+    ups = [s for s in br if isinstance(s, ast.Expr) and isinstance(s.value, ast.Call) and _dotted(s.value.func) == f"{m}.update"
+           and len(s.value.args) == 1 and _dotted(s.value.args[0]) == par]
+    if len(ups) != 1:
+        raise TranslateError(f"prepare_arguments: `{m}` is not updated with the call's parameters exactly once")
+    if m == "common_args":
+        return {"fresh_per_call": False, "why": "common_args itself is updated with each call's parameters"}
+
+    def fresh_copy(v):
+        return ((isinstance(v, ast.Call) and _dotted(v.func) in ("common_args.copy", "dict", "copy.copy", "copy.deepcopy")
+                 and (_dotted(v.func) == "common_args.copy" or (len(v.args) == 1 and _dotted(v.args[0]) == "common_args")))
+                or (isinstance(v, ast.Dict) and v.keys == [None] and _dotted(v.values[0]) == "common_args"))
+    binds_in = [s for s in br if isinstance(s, ast.Assign) and len(s.targets) == 1 and _dotted(s.targets[0]) == m]
+    if len(binds_in) == 1 and fresh_copy(binds_in[0].value) and br.index(binds_in[0]) < br.index(ups[0]):
+        if _names_bound(loop.body).count(m) != 1:
+            raise TranslateError(f"prepare_arguments: `{m}` bound more than once in the loop")
+        return {"fresh_per_call": True, "why": f"{m} = fresh copy of common_args; {m}.update({par}); task.args(**{m})"}
+    if not binds_in and m not in _names_bound(loop.body):
+        return {"fresh_per_call": False,
+                "why": f"`{m}` is created outside the loop and updated in place for every call"}
+    raise TranslateError(f"prepare_arguments: how `{m}` is built is not recognised")
+
+
+def parse_direct_options(src: str) -> dict:
+    """pynenc/app.py  Pynenc.direct_task.decorator:
+          task_options = {k: v for k, v in task_options.items() if <test on v>}
+          task = self.task(func, **task_options)
+    -> keeps_falsy = True for `v is not None` (an option the caller passes - 0, False, () included - reaches the
+       task); False for a truthiness test (`if v`): falsy options are dropped and the app-level value applies."""
+    cls = _find_class(ast.parse(src), "Pynenc")
+    impls = [n for n in cls.body if isinstance(n, ast.FunctionDef) and n.name == "direct_task"
+             and not any(_dotted(d) == "overload" for d in n.decorator_list)]
+    if len(impls) != 1:
+        raise TranslateError("direct_task implementation not found")
+    decs = [n for n in ast.walk(impls[0]) if isinstance(n, ast.FunctionDef) and n.name == "decorator"]
+    if len(decs) != 1:
+        raise TranslateError("direct_task.decorator not found")
+    comps = [s for s in decs[0].body if isinstance(s, ast.Assign) and len(s.targets) == 1 and _dotted(s.targets[0]) == "task_options"
+             and isinstance(s.value, ast.DictComp)]
+    if len(comps) != 1:
+        raise TranslateError("direct_task: task_options is not filtered by one dict comprehension")
+    dc = comps[0].value
+    gen = dc.generators[0] if len(dc.generators) == 1 else None
+    if not (gen and isinstance(gen.target, ast.Tuple) and len(gen.target.elts) == 2 and all(isinstance(e, ast.Name) for e in gen.target.elts)
+            and isinstance(gen.iter, ast.Call) and _dotted(gen.iter.func) == "task_options.items"
+            and _dotted(dc.key) == gen.target.elts[0].id and _dotted(dc.value) == gen.target.elts[1].id and len(gen.ifs) == 1):
+        raise TranslateError("direct_task: option filter comprehension not recognised")
+    v, test = gen.target.elts[1].id, gen.ifs[0]
+    uses = [c for c in ast.walk(decs[0]) if isinstance(c, ast.Call) and _dotted(c.func) == "self.task"]
+    if len(uses) != 1 or len(uses[0].keywords) != 1 or uses[0].keywords[0].arg is not None \
+            or _dotted(uses[0].keywords[0].value) != "task_options":
+        raise TranslateError("direct_task: the task is not created with self.task(func, **task_options)")
+    if isinstance(test, ast.Compare) and _dotted(test.left) == v and len(test.ops) == 1 and isinstance(test.ops[0], ast.IsNot) \
+            and isinstance(test.comparators[0], ast.Constant) and test.comparators[0].value is None:
+        return {"keeps_falsy": True, "why": f"options filtered with `{v} is not None`"}
+    if isinstance(test, ast.Name) and test.id == v:
+        return {"keeps_falsy": False, "why": f"options filtered by truthiness (`if {v}`): explicit 0 / False / () are dropped"}
+    raise TranslateError("direct_task: option filter test not recognised")
+
+
 def _b(x: bool) -> str:
     return "true" if x else "false"
+
+
+def _c(text: str) -> str:
+    """text safe inside a Coq comment"""
+    return text.replace("(*", "( *").replace("*)", "* )").replace('"', "'")
 
 
 def emit(p: dict) -> str:
@@ -420,8 +623,15 @@ def emit(p: dict) -> str:
         f"Definition gen_direct_returns_result : bool := {_b(p['direct']['returns_result'])}.",
         f"Definition gen_direct_par_aggregates : bool := {_b(p['direct']['aggregates'])}.",
         f"Definition gen_default_max_retries : nat := {p['default_max']}.",
-        f"(* task.py distribute_calls, dev_mode_force_sync_tasks branch: {p['group']['why']} *)",
+        f"(* task.py distribute_calls, dev_mode_force_sync_tasks branch: {_c(p['group']['why'])} *)",
         f"Definition gen_sync_group_own_invocations : bool := {_b(p['group']['own_invocations'])}.",
+        "(* task.py distribute_batch_calls: number of batches routed for n calls and batch size b (batch k starts at k*b) *)",
+        f"Definition gen_batch_count (n b : nat) : nat := {p['batches']['count']}.",
+        f"(* task.py prepare_arguments, dict element next to common_args: {_c(p['common']['why'])} *)",
+        f"Definition gen_common_args_fresh_per_call : bool := {_b(p['common']['fresh_per_call'])}.",
+        f"(* app.py direct_task: {_c(p['dopts']['why'])}; the max_retries a direct task runs with, given the declared option and the app-level value *)",
+        "Definition gen_direct_option (declared app : nat) : nat := "
+        + ("declared." if p['dopts']['keeps_falsy'] else "if Nat.eqb declared 0 then app else declared."),
         "",
     ])
 
@@ -435,6 +645,9 @@ def translate(repo: str) -> tuple[str, dict]:
         "retry": parse_set_retry(rd("pynenc/orchestrator/base_orchestrator.py")),
         "retriable": parse_retriable(rd("pynenc/task.py")),
         "group": parse_sync_group(rd("pynenc/task.py")),
+        "batches": parse_batches(rd("pynenc/task.py")),
+        "common": parse_common_args(rd("pynenc/task.py")),
+        "dopts": parse_direct_options(rd("pynenc/app.py")),
         "direct": parse_direct(rd("pynenc/app.py")),
         "default_max": parse_default_max(rd("pynenc/conf/config_task.py")),
     }
@@ -443,7 +656,9 @@ def translate(repo: str) -> tuple[str, dict]:
                       "direct_returns_result": p["direct"]["returns_result"],
                       "direct_par_aggregates": p["direct"]["aggregates"], "default_max_retries": p["default_max"],
                       "sync_group_own_invocations": p["group"]["own_invocations"],
-                      "sync_group_shape": p["group"]["why"]}}
+                      "sync_group_shape": p["group"]["why"], "batch_count": p["batches"]["count"],
+                      "common_args_fresh_per_call": p["common"]["fresh_per_call"],
+                      "direct_keeps_falsy_options": p["dopts"]["keeps_falsy"]}}
     return emit(p), info
 
 
